@@ -141,7 +141,7 @@ TEXT["C09"] = {
              "delete-group-topic and delete-topic the deleted item is in no list, detail or topic view, while every other cluster, group, topic and partition is reported exactly as before "
              "(removes/frame theorems as equalities of all fetch views at every clock value); deleting what does not exist is the identity; a group whose newest commit is older than the expiry "
              "time is NOTFOUND and then gone from the listing, with the exact boundary; unexpired reads are pure; commits older than the expiry time are ignored. Tie: real storage handlers vs the "
-             "compiled model with all fetches issued after every deletion. Under the worker pool: group_deletion_is_routed_with_the_groups_commits (`decide` over the routing switch of mainLoop REGENERATED from inmemory.go) and deletion_follows_earlier_commits (a deletion arriving after a commit of its group is queued on the same worker behind it, for any number of workers), tied by the conc stream on the real worker pool. The groups reaper of the cluster module, a third source of group deletions, is modelled (Cluster.reap): reaper_deletes_iff (exactly the groups storage lists and Kafka does not, the cluster's own burrow-<name> excepted, and only when both listings were obtained), reaper_failed_listing_deletes_nothing, reaper_spares_live_groups, reaper_names_each_group_once; tied by the cluster stream's reaper ticks through the REAL mainLoop. The expired-group purge is also exercised while a concurrent reader holds the group map's read lock (S consumerbusy), and the expiry / window settings the real Configure ends up with are compared (S sconf)."),
+             "compiled model with all fetches issued after every deletion. Under the worker pool: group_deletion_is_routed_with_the_groups_commits (`decide` over the routing switch of mainLoop REGENERATED from inmemory.go) and deletion_follows_earlier_commits (a deletion arriving after a commit of its group is queued on the same worker behind it, for any number of workers), tied by the conc stream on the real worker pool. The groups reaper of the cluster module, a third source of group deletions, is modelled (Cluster.reap): reaper_deletes_iff (exactly the groups storage lists and Kafka does not, the cluster's own burrow-<name> excepted, and only when both listings were obtained), reaper_failed_listing_deletes_nothing, reaper_spares_live_groups, reaper_names_each_group_once; tied by the cluster stream's reaper ticks through the REAL mainLoop. End to end (Model/Reaper.lean: the reaper's requests executed by the storage model): reaper_run_leaves_the_live_groups (after a sweep the cluster lists exactly the groups it listed before that Kafka still knows, plus burrow-<name>), reaper_sweep_frame (every group not named and every other cluster reported exactly as before), reaper_run_with_failed_listing_is_identity; tied by the S reap op: the REAL reapNonExistingGroups of a cluster module against the REAL storage module over the storage channel. The expired-group purge is also exercised while a concurrent reader holds the group map's read lock (S consumerbusy), and the expiry / window settings the real Configure ends up with are compared (S sconf)."),
     "note": ("Trusted: Lean kernel + standard axioms; harness; clock by sample-and-discard plus time shifting for expiry. Status staleness through the cache is C05's subject."),
 }
 TEXT["C10"] = {
